@@ -265,7 +265,7 @@ def run_sweeps(res, tier, seed, want):
                         else:
                             key = "C10/panic/salsa-cycle/" + first
                     else:
-                        key = "C10/panic/" + re.sub(r"^/repo/", "", loc.split(" ")[0]) + "/" + query
+                        key = "C10/panic/" + re.sub("^" + re.escape(common.REPO) + "/", "", loc.split(" ")[0]) + "/" + query
                     res.add_violation(key, f"{query} panics at {loc} ({cnt} offsets, first at offset {off}) on a {ws.label} workspace",
                                       {"files": [{"path": p, "text": t} for p, t in ws.files], "query": q, "first_offset": off, "impl": a[:600], "label": ws.label})
             else:
